@@ -143,6 +143,7 @@ def Bitwise(sub): return N("Bitwise", sub=sub)
 def Bytewise(sub): return N("Bytewise", sub=sub)
 def ByteSwapped(sub): return N("ByteSwapped", sub=sub)
 def BitsSwapped(sub): return N("BitsSwapped", sub=sub)
+def Compressed(sub, codec): return N("Compressed", sub=sub, codec=codec, ek=[], ev=[], dk=[], dv=[])
 def OneOf(sub, vals): return N("OneOf", sub=sub, vals=[V.enc(v) for v in vals])
 def NoneOf(sub, vals): return N("NoneOf", sub=sub, vals=[V.enc(v) for v in vals])
 
@@ -269,6 +270,7 @@ def realize(n):
     if k == "LazyStruct": return cs.LazyStruct(*[R(s) for s in n["subs"]])
     if k == "LazyArray": return cs.LazyArray(E(n["count"]), R(n["sub"]))
     if k == "Compressed": return cs.Compressed(R(n["sub"]), n["codec"])
+    if k == "Opaque": return n["_obj"]()          # harness-only node: a construct built directly (law right-hand sides)
     raise ValueError("cannot realize %s" % k)
 
 def _hashable(v):
